@@ -115,6 +115,14 @@ def ocean_floor(
     if non_spatial_variables is None:
         non_spatial_variables = []
 
+    # The bounds of the depth coordinates describe the layers that are being removed.
+    # They are not data on a grid and are dropped along with the depth coordinates.
+    depth_bounds_names = {
+        utils.name_to_data_array(dataset, coordinate).attrs.get('bounds')
+        for coordinate in depth_coordinates}
+    dataset = dataset.drop_vars([
+        name for name in depth_bounds_names if name in dataset.variables])
+
     # The name of all the relevant _dimensions_, not _coordinates_
     depth_dimensions = utils.dimensions_from_coords(dataset, depth_coordinates)
     non_spatial_dimensions = utils.dimensions_from_coords(dataset, non_spatial_variables)
